@@ -575,6 +575,10 @@ pub fn join(toks: &[Tok], st: &mut Style) -> String {
                 }
             }
             Tok::DocLine(s) => {
+                if plain && !out.is_empty() && !out.ends_with('\n') && !out.trim_end_matches(' ').ends_with('\n') {
+                    out.push('\n');
+                    out.push_str(&"    ".repeat(depth));
+                }
                 out.push_str(s);
                 out.push('\n');
                 if plain {
